@@ -284,6 +284,12 @@ func runC12(e *env) {
 		{"{msg desc=\"d\"}{plural $n}{case 1}one\n{$x.y}\n{default}many\n\n{$x.y}{/plural}{/msg}", data.Map{"x": data.String("s"), "n": data.Int(5)}},
 		{"{msg desc=\"d\"}{plural $n}{case 0}\n{$x.y} none{case 1}one\n\n{$x.y}{default}\n\n\nmany{/plural}{/msg}", data.Map{"x": data.String("s"), "n": data.Int(1)}},
 		{"{msg desc=\"d\"}a\n{$x.y}\nb\n{$x.y}{/msg}", data.Map{"x": data.String("s"), "n": data.Int(1)}},
+		// evalPrint applies each directive right after its own arguments: the Apply of the first truncate fails
+		// (its argument is not an integer) BEFORE the argument of the second, on the next line, is evaluated (it
+		// would fail too): the error is reported on the print's line (Model/Interp.v print_dirs; the line is compared
+		// without a bundle too for these shapes)
+		{"a\n{$x|truncate:'a'|truncate:\n$x.v}", data.Map{"x": data.String("hello")}},
+		{"a\n{$x|truncate:3|truncate:\n$x.v}", data.Map{"x": data.String("hello")}},
 	}
 	const c12LineFrom = 16 // index of the first nested-placeholder shape
 	for j, f := range fixed {
@@ -308,7 +314,7 @@ func runC12(e *env) {
 
 // c12CheckLine: the renders through a translation also compare the LINE of the fault-free run's error with the
 // model's (a mismatch of the model; set for the nested-placeholder shapes, elsewhere deviations are only counted
-// in the histogram: bundle-error-line-deviation)
+// in the histogram: error-line-deviation)
 var c12CheckLine bool
 
 func c12Bundle(e *env, key string, files []srcFile, entry string, dataSets []data.Map, sample bool) {
@@ -594,13 +600,13 @@ func c12Render(e *env, key string, tofu *soyhtml.Tofu, files []srcFile, entry st
 		e.res.Fail(hx.Violation{Kind: "mismatch", What: "fault-free run: model outcome " + rs[0][0] + " vs implementation error " + hx.Q(errStr(err0)), Case: mk("none")}, "")
 		return
 	}
-	if bsx != "" && cls0 == "err" && err0 != nil && len(rs[0]) > 2 {
+	if (bsx != "" || c12CheckLine) && cls0 == "err" && err0 != nil && len(rs[0]) > 2 {
 		if fp := errortypes.ToErrFilePos(err0); fp != nil {
-			e.res.Histogram["bundle-error-line-compared"]++
+			e.res.Histogram["error-line-compared"]++
 			if ml := strings.TrimPrefix(rs[0][2], "#"); ml != strconv.Itoa(fp.Line()) {
-				e.res.Histogram["bundle-error-line-deviation"]++
+				e.res.Histogram["error-line-deviation"]++
 				if c12CheckLine {
-					e.res.Fail(hx.Violation{Kind: "mismatch", What: "render through a translation: the line of the error differs from the model's (which placeholder node was walked)", Case: mk("none"),
+					e.res.Fail(hx.Violation{Kind: "mismatch", What: "the line of the fault-free run's error differs from the model's (which placeholder node was walked / which directive failed first)", Case: mk("none"),
 						Expected: "line " + ml, Observed: fmt.Sprintf("line %d: %.160s", fp.Line(), errStr(err0))}, "")
 					return
 				}
